@@ -199,6 +199,33 @@ def chunkRelativeCodonLocations (k : ChunkCDS) : R (List Location) := do
   let (location, offset) ← prepareChunk k
   if (locLen location : Int) - offset ≥ 3 then scanWindows3 location offset else pure []
 
+/-- both `_prepare_*` functions with a codon window (`relative_window` in chromosome coordinates) on a chunk-built
+    CDS: the (cleaned) location is first restricted to the window, then lifted onto the chunk — and the frame offset
+    is measured against the RESTRICTED location (cds.py:697, 770) -/
+def prepareChunkW (k : ChunkCDS) (win : Option Blk) : R (Location × Int) :=
+  if ¬ k.isChunkRelative then prepare k.base win
+  else if k.base.numBlocks > 1 then do
+    let cleaned ← cleanedLoc k.base
+    let rel ← match windowTruthy win with
+      | some w => intersectWindow cleaned w
+      | none => pure (Location.compound cleaned)
+    chunkBranch k rel
+  else do
+    let frame0 ← match k.base.frames.head? with
+      | some f => pure f
+      | none => throw .MismatchedFrame
+    let rel ← match windowTruthy win with
+      | some w => intersectWindow k.base.loc w
+      | none => pure (Location.compound k.base.loc)
+    let (crl, d) ← chunkBranch k rel
+    pure (crl, frame0.value + d)
+
+/-- `scan_chunk_relative_codon_locations(chromosome_start, chromosome_end)` (no expansion) -/
+def scanChunkRelativeCodonLocations (k : ChunkCDS) (lo hi : Int) : R (List Location) := do
+  let win ← convertWindow k.base (some ⟨some lo, some hi, false⟩)
+  let (location, offset) ← prepareChunkW k win
+  if (locLen location : Int) - offset ≥ 3 then scanWindows3 location offset else pure []
+
 /-- `chromosome_codon_locations` = `_scan_codon_locations(None, chunk_relative_coordinates=False)`: the chunk branch
     is not taken; the chromosome-level members alone decide -/
 def chromosomeCodonLocations (k : ChunkCDS) : R (List Location) := codonLocations k.base
